@@ -312,6 +312,19 @@ pub fn run(op: &str, case: &Value) -> Result<Value> {
             let _ = std::fs::remove_dir_all(&dir);
             r
         }
+        "qplib_load" => {
+            let text = case["text"].as_str().ok_or_else(|| anyhow!("text"))?;
+            let dir = std::env::temp_dir().join(format!("ommx-replay-{}", std::process::id()));
+            std::fs::create_dir_all(&dir)?;
+            let path = dir.join("case.qplib");
+            std::fs::write(&path, text)?;
+            let r = match ommx::qplib::load_file(&path) {
+                Ok(i) => json!({"ok": {"instance": enc(&i)}}),
+                Err(e) => json!({"err": format!("{e}")}),
+            };
+            let _ = std::fs::remove_dir_all(&dir);
+            r
+        }
         _ => bail!("unknown op {op}"),
     })
 }
